@@ -276,6 +276,44 @@ pub fn run(ctx: &Ctx) -> Report {
         rep.add_extra(&format!("{}_clause_lists", name), fam.states);
         rep.merge(fam);
     }
+    // long inputs: one clause with k = 1..maxk literals and lists of k unit clauses, where the
+    // elements at positions i (and j) are the only ones on x2 (x3) and all others repeat x1:
+    // losing or duplicating any single element of the list changes the models
+    {
+        let maxk = ctx.tier.pick(16, 24);
+        let mut lists: Vec<Vec<Clause>> = Vec::new();
+        for k in 1..=maxk {
+            for i in 0..k {
+                for j in i..k {
+                    let lit = |p: usize| -> Lit { if p == i { (1, true) } else if p == j { (2, false) } else { (0, true) } };
+                    lists.push(vec![(0..k).map(lit).collect()]);
+                    lists.push((0..k).map(|p| vec![lit(p)]).collect());
+                }
+            }
+        }
+        let chunks: Vec<&[Vec<Clause>]> = lists.chunks(128).collect();
+        let fam = par_run(ctx, &chunks, |_, chunk| {
+            let mut r = Report::default();
+            r.exhaustive = true;
+            for clauses in chunk.iter() {
+                r.states += 1;
+                for style in [0usize, 3] {
+                    r.transitions += 1;
+                    r.traces += 1;
+                    if let Some((k, w)) = check_dimacs(clauses, style) {
+                        r.violation(format!("parse:{}", k), format!("cnf {}: {}", cnf_json(clauses), w), json!({"kind": "dimacs", "cnf": cnf_json(clauses), "style": style}));
+                    }
+                }
+                if r.n_violations > 16 {
+                    break;
+                }
+            }
+            r
+        });
+        rep.add_extra("long_clause_lists", fam.states);
+        rep.bound("long_inputs", json!({"max_literals_per_clause": maxk, "max_clauses": maxk, "marked_positions": "every i <= j"}));
+        rep.merge(fam);
+    }
     // s-expressions
     let k = ctx.tier.pick(2, 3);
     let mut ex = exprs_up_to(k, 3);
